@@ -58,12 +58,13 @@ SigsOf(r, cls) ==
     [] OTHER -> {}
 
 (* ---- record walk: one state per record; every record that is not "ok" is listed with its signatures ---- *)
+J == [i \in 1..Len(Obs) |-> Class(Obs[i])]                  \* each record judged once
 VARIABLES l, nbad
 Init == l = 1 /\ nbad = 0
-Next == l <= Len(Obs) /\ l' = l + 1 /\ nbad' = nbad + (IF Class(Obs[l]) = "ok" THEN 0 ELSE 1)
-BadIdx == SelectSeq([i \in 1..Len(Obs) |-> i], LAMBDA i : Class(Obs[i]) # "ok")
+Next == l <= Len(Obs) /\ l' = l + 1 /\ nbad' = nbad + (IF J[l] = "ok" THEN 0 ELSE 1)
+BadIdx == SelectSeq([i \in 1..Len(Obs) |-> i], LAMBDA i : J[i] # "ok")
 Out == [j \in 1..Len(BadIdx) |->
-          LET r == Obs[BadIdx[j]]  cls == Class(r) IN
+          LET r == Obs[BadIdx[j]]  cls == J[BadIdx[j]] IN
           [k |-> BadIdx[j], id |-> r.id, cls |-> cls, sigs |-> SetToSeq(SigsOf(r, cls))]]
 Done == l = Len(Obs) + 1 => ndJsonSerialize("bad.ndjson", IF nbad = 0 THEN <<>> ELSE Out)
 Consumed == TLCGet("stats").diameter - 1 = Len(Obs)
